@@ -498,10 +498,10 @@ class SigmaString(SigmaType):
         s = self.s
         for i in range(len(s)):
             if isinstance(s[i], Placeholder):  # Placeholder instance at index, do replacement
-                prefix = SigmaString()
+                prefix = self.__class__()
                 prefix.s = s[:i]
                 placeholder = s[i]
-                suffix = SigmaString()
+                suffix = self.__class__()
                 suffix.s = s[i + 1 :]
                 return [
                     prefix + replacement + result_suffix
